@@ -330,7 +330,7 @@ def run(ctx):
                     elif d and d[0] == "nowrite":
                         n = d[1] + 1     # the failing write is still a gated step
                     writes.append(n)
-                use = scheds if vlabel == "intact" else (scheds if len(scheds) <= 12 else rng.sample(scheds, 12 if not ctx.thorough else 40))
+                use = scheds if vlabel == "intact" else (scheds if len(scheds) <= 12 else rng.sample(scheds, min(len(scheds), 12 if not ctx.thorough else 40)))
                 seen = set()
                 for s in use:
                     # restrict the interleaving to the steps that exist under this damage
